@@ -168,9 +168,21 @@ class World(object):
             ("get_logic(len(st)<=3)", lambda: self._call(lambda: "%s %s" % (get_logic(self.str_len, self.env), get_logic(self.bv2nat, self.env)), "text")),
             ("get_logic(const array)", lambda: self._call(lambda: get_logic(self.const_arr, self.env), "text")),
             ("subst shared_map phi3 (quantified)", lambda: self._call(lambda: self.phi3.substitute(self.shared_map))),
+            # a formula over a symbol whose sort OBJECT belongs to another environment's type manager (a sort kept in a
+            # variable while another environment was current): equal sorts are the same sort
+            ("formula over b12 : BV12 built with a foreign sort object", lambda: self._call(lambda: self._foreign_sort_formula())),
             # the environment's size oracle driven through its public walker interface with another measure
             ("sizeo.set_walking_measure(depth); walk(phi1)", lambda: self._call(lambda: self._size_walk(), "text")),
         ]
+
+    def _foreign_sort_formula(self):
+        other = pysmt.environment.Environment()
+        t12 = other.type_manager.BVType(12)
+        return self.m.BVULT(self.m.BV(3, 12), self.m.Symbol("b12", t12))
+
+    def _other_b12(self):
+        o = pysmt.environment.Environment()
+        return o.formula_manager.BVULT(o.formula_manager.Symbol("b12", o.type_manager.BVType(12)), o.formula_manager.BV(9, 12))
 
     def _size_walk(self):
         so = self.env.sizeo
@@ -276,6 +288,11 @@ class World(object):
             ("serialize phi3", lambda: self._call(lambda: self.phi3.serialize(), "text"), False),
             ("parse good script", lambda: self._call(lambda: self.parse_smt("(assert (and p (< x (+ y 1))))(push 1)(assert (= (f x) (* 2 y)))(pop 1)(assert (or q p))"), "terms"), False),
             ("And(p,x) again", lambda: self._call(lambda: m.And(p, x)), False),
+            # (reported as text: whether b12 is NEW to the environment legitimately differs between the two runs)
+            ("b12 with the environment's own BV12, normalize, parse", lambda: self._call(lambda: " ".join(self._outcome(fn) for fn in (
+                lambda: m.Not(m.Equals(m.Symbol("b12", self.env.type_manager.BVType(12)), m.BV(7, 12))).serialize(),
+                lambda: m.normalize(self._other_b12()).serialize(),
+                lambda: self.parse_smt("(declare-fun b12 () (_ BitVec 12))(assert (bvult b12 #x005))")[0].serialize())), "text"), False),
             ("hr parse", lambda: self._call(lambda: self.hr.parse("(x + 1) <= y & p")), True),
             ("nnf phi2", lambda: self._call(lambda: rw.nnf(self.phi2, self.env)), True),
             ("prenex phi3", lambda: self._call(lambda: rw.prenex_normal_form(self.phi3, self.env)), False),
